@@ -2,6 +2,7 @@ import Std.Data.HashMap
 import H3.Drv.Util
 import H3.Model.Headers
 import H3.Spec.Headers
+import H3.Spec.Qpack
 /-! Driver engine `hdr` (C12).  Case lines as described in `harness/src/e_c12.rs`.
 
     The abstract `http` parameter of the model (`Http`) is instantiated per case line by lookup
@@ -77,8 +78,10 @@ def parseVTable (s : String) : Option VTable :=
 
 def lookup {κ ρ : Type} [BEq κ] (l : List (κ × ρ)) (k : κ) : Option ρ := (l.find? (·.1 == k)).map (·.2)
 
-/-- "missing-verdict": shows up in the output when the model asks for something the table
-    does not have. -/
+/-- A verdict the table does not have.  Never consulted on a line that is answered: `covers`
+    below refuses such a line (`bad-op missing-verdict`) before model or specification run, so
+    that no answer depends on this filler (which would break `HttpLaws.authority_as_str` and
+    `uri_authority_parses` if it were an answer). -/
 def missing : Bytes := [109, 105, 115, 115, 105, 110, 103, 45, 118, 101, 114, 100, 105, 99, 116]
 
 def httpOf (t : VTable) : Http where
@@ -86,6 +89,21 @@ def httpOf (t : VTable) : Http where
   parseAuthority v := (lookup t.a v).getD (some missing)
   parsePath v := (lookup t.p v).getD (some missing)
   uriBuild s a p := (lookup t.u (s, a, p)).getD (some { scheme := some missing, authority := none, path := none })
+
+/-- Every question model and specification put to `httpOf t` on this field list has its answer in
+    the table: every `:scheme` / `:authority` / `:path` value (the specification asks about all of
+    them, `Field.parse` about those up to the first refusal), and the one `Uri::builder` call
+    `into_request_parts` makes (scheme and path as parsed, the authority the four-way match chose). -/
+def covers (t : VTable) (req : Bool) (fs : List FieldLine) : Bool :=
+  fs.all (fun (n, v) =>
+    (n != nScheme || (lookup t.s v).isSome) && (n != nAuthority || (lookup t.a v).isSome) &&
+    (n != nPath || (lookup t.p v).isSome)) &&
+  (!req || (match tryFrom (httpOf t) fs with
+    | .ok h =>
+      (match chooseAuthority h.pseudo.authority (hmGet h.fields nHost) with
+       | .ok a => (lookup t.u (h.pseudo.scheme, a, h.pseudo.path)).isSome
+       | _ => true)
+    | _ => true))
 
 /-- the table against `HttpLaws` (only entries that are present can be judged). -/
 def lawsOk (t : VTable) : Bool :=
@@ -180,8 +198,13 @@ def agreed (vs : List Bytes) (none_ : String) : String :=
   | [] => none_
   | v :: r => if r.all (· == v) then toHex v else "*"
 
+/-- the site tag of finding D-12g: the model hands the request over although a `:scheme`,
+    `:authority` or `:path` value fails a crate-independent necessary condition (R-12c) -/
+def tagSyntax (fs : List FieldLine) : String :=
+  if H3.Spec.Headers.SyntaxOk fs then "" else " #D-12g"
+
 def specReq (H : Http) (fs : List FieldLine) : String :=
-  if WellFormedRequest H fs then
+  if H3.Spec.Headers.WellFormedRequestStrict H fs then
     let auth := agreed (valuesOf nAuthority fs ++ valuesOf nHost fs) "*"
     s!"ok method {agreed (valuesOf nMethod fs) "*"} scheme * authority {auth} path * proto {agreed (valuesOf nProtocol fs) "~"} headers {showFields (groupedRegular fs)} || reject *"
   else "reject *"
@@ -232,9 +255,40 @@ def buildable (m : Bytes) (u : UriParts) (pr : Option Bytes) (fs : List FieldLin
 
 def mapOf (fs : List FieldLine) : HeaderMap := fs.foldl (fun m (n, v) => hmAppend m n v) []
 
+/-! ### what was written on a request stream, read by the reference decoder -/
+
+/-- RFC 9000 §16 variable-length integer -/
+def varint : Bytes → Option (Nat × Bytes)
+  | [] => none
+  | b :: r =>
+    let n := 2 ^ (b / 64)          -- 1, 2, 4 or 8 bytes
+    if r.length + 1 < n then none else
+    some ((r.take (n - 1)).foldl (fun acc x => acc * 256 + x) (b % 64), r.drop (n - 1))
+
+/-- `hdr dec <hex>`: the bytes h3 wrote are ONE complete HEADERS frame (RFC 9114 §7.2.2: type 0x01,
+    length, an encoded field section) and nothing else; its field section read by the reference
+    decoder of RFC 9204 (`H3.Spec.Qpack.specDecode`, written from the RFC, dynamic table empty).
+    Prints the field lines as the `s…` ops print them. -/
+def decodeWritten (bs : Bytes) : String :=
+  match varint bs with
+  | none => "wire-bad:no-frame-type"
+  | some (ty, r) =>
+    if ty != 1 then s!"wire-bad:frame-type-{ty}" else
+    match varint r with
+    | none => "wire-bad:no-frame-length"
+    | some (len, payload) =>
+      if payload.length != len then s!"wire-bad:length-{len}-payload-{payload.length}" else
+      match H3.Spec.Qpack.specDecode payload with
+      | .error _ => "wire-bad:field-section-undecodable"
+      | .ok fields => showSent fields
+
 /-! ### dispatch -/
 
-def handle : List String → String
+def handle0 : List String → String
+  | ["hdr", "dec", h] =>
+    match parseHex h with
+    | some bs => decodeWritten bs
+    | none => "bad-op"
   | ["hdr", "sresp", st, f] =>
     match st.toNat?, parseFields f with
     | some st, some fs =>
@@ -246,10 +300,11 @@ def handle : List String → String
     match parseFields f, parseVTable vt with
     | some fs, some t =>
       if !lawsOk t || !roundTripOk t then "law-violated ## ?" else
+      if !covers t (op == "req" || op == "srv") fs then "bad-op missing-verdict" else
       let H := httpOf t
       if op == "req" then
         let m := match recvRequest H fs with
-          | .ok r => s!"ok method {toHex r.method} scheme {optHex r.uri.scheme} authority {optHex r.uri.authority} path {optHex r.uri.path} proto {optHex r.protocol} headers {showFields (hmIter r.headers)}"
+          | .ok r => s!"ok method {toHex r.method} scheme {optHex r.uri.scheme} authority {optHex r.uri.authority} path {optHex r.uri.path} proto {optHex r.protocol} headers {showFields (hmIter r.headers)}{tagSyntax fs}"
           | .err e => "reject " ++ e.name
           | .panic => "panic"
         m ++ " ## " ++ specReq H fs
@@ -261,7 +316,7 @@ def handle : List String → String
         m ++ " ## " ++ specResp H fs
       else if op == "srv" then
         let m := match recvRequest H fs with
-          | .ok r => s!"ok method {toHex r.method} scheme {optHex r.uri.scheme} authority {optHex r.uri.authority} path {optHex r.uri.path} proto {optHex r.protocol} headers {showFields (hmIter r.headers)}"
+          | .ok r => s!"ok method {toHex r.method} scheme {optHex r.uri.scheme} authority {optHex r.uri.authority} path {optHex r.uri.path} proto {optHex r.protocol} headers {showFields (hmIter r.headers)}{tagSyntax fs}"
           | .err e => showRefusalFull (siteResolve e)
           | .panic => "panic"
         m ++ " ## " ++ specSrv H fs
@@ -271,7 +326,7 @@ def handle : List String → String
           | .err e => showRefusalFull (siteRecvResponse (recvResponseSecond H fs) e)
           | .panic => "panic"
         m ++ " ## " ++ specCli H fs
-      else if op == "trl" then
+      else if op == "trl" || op == "trlc" || op == "trls" then
         let m := match recvTrailers H fs with
           | .ok hm => s!"ok headers {showFields (hmIter hm)}"
           | .err e => showRefusal (siteRecvTrailers e)
@@ -302,5 +357,21 @@ def handle : List String → String
       showSent (Header.trailer (mapOf fs)).wireFields ++ " ## " ++ showSent (groupedRegular fs)
     | none => "bad-op"
   | _ => "bad-op"
+
+/-- The `w…` ops are the `s…` ops made through the public API (`SendRequest::send_request`,
+    `RequestStream::{send_response, send_trailers}` of server and client) with the bytes written on the
+    request stream read back by `decodeWritten` (the check's projection runs `hdr dec` on them): model
+    and specification are those of the function-level op.  A refusal of `Header::request` is not shown
+    to the caller of `send_request` by kind. -/
+def handle : List String → String
+  | ["hdr", "wresp", st, f] => handle0 ["hdr", "sresp", st, f]
+  | ["hdr", "wtrlc", f] => handle0 ["hdr", "strl", f]
+  | ["hdr", "wtrls", f] => handle0 ["hdr", "strl", f]
+  | ["hdr", "wreq", m, s, a, p, pr, f] =>
+    let r := handle0 ["hdr", "sreq", m, s, a, p, pr, f]
+    match r.splitOn " ## " with
+    | [mo, sp] => (if mo.startsWith "reject " then "reject" else mo) ++ " ## " ++ sp.replace "reject *" "reject"
+    | _ => r
+  | ws => handle0 ws
 
 end H3.Drv.C12
